@@ -105,19 +105,45 @@ def matches(error, rule):
     return error in ee or "States.TaskFailed" in ee or (len(ee) == 1 and ee[0] == "States.ALL")
 
 
-def handles(state, error, retry_count):
-    """does `state` retry (attempts left, given the RetryCount its event carries) or catch `error` — as `handle_error` decides"""
+def handler_of(state, error, retry_count):
+    """how `state` deals with `error`, as `handle_error` decides: ("retry", None) — a matching Retrier with attempts left, given
+    the RetryCount the state's event carries —, ("catch", Next) or None"""
     if error in UNRECOVERABLE or not isinstance(state, dict):
-        return False
+        return None
     for r in (state.get("Retry") if isinstance(state.get("Retry"), list) else []):
         if isinstance(r, dict) and matches(error, r):
             if (retry_count or 0) < r.get("MaxAttempts", 3):
-                return True
+                return ("retry", None)
             break
     for c in (state.get("Catch") if isinstance(state.get("Catch"), list) else []):
         if isinstance(c, dict) and matches(error, c):
-            return True
-    return False
+            return ("catch", c.get("Next"))
+    return None
+
+
+def handles(state, error, retry_count):
+    return handler_of(state, error, retry_count) is not None
+
+
+def static_seq(machine, name, fuel=12):
+    """what the definition alone says about the visits from state `name` on, as far as it is certain: Pass / Succeed / Wait
+    states, then a Task (whose outcome is not known: "?" unless it ends the sequence)"""
+    st = find_state(machine, name) if isinstance(name, str) and name else None
+    if fuel == 0 or not isinstance(st, dict):
+        return ["?"]
+    ty = st.get("Type")
+
+    def then():
+        if st.get("End") or ty == "Succeed":
+            return []
+        return static_seq(machine, st.get("Next"), fuel - 1)
+    if ty in ("Pass", "Succeed") and not any(k in st for k in ("InputPath", "OutputPath", "Parameters", "ResultPath")):
+        return ["S"] + then()
+    if ty == "Wait" and not any(k in st for k in ("InputPath", "OutputPath")):
+        return ["W"] + then()
+    if ty == "Task" and str(st.get("Resource", "")).startswith(FUNCTION) and "Parameters" not in st:
+        return ["T"] + ([] if st.get("End") else ["?"])
+    return ["?"]
 
 
 class Visit(object):
@@ -192,19 +218,21 @@ def skeleton(machines, lab):
         def fail_level(self, v, error):
             for k in range(len(v.branch)):
                 fr = v.branch[-1 - k]
-                if handles(find_state(self.machine, fr.get("Parent")), error, fr.get("RetryCount")):
-                    return k
-            return None
+                h = handler_of(find_state(self.machine, fr.get("Parent")), error, fr.get("RetryCount"))
+                if h is not None:
+                    return k, h
+            return None, None
 
         def fail_item(self, v, error, ctx):
-            lvl = self.fail_level(v, error)
+            lvl, how = self.fail_level(v, error)
             if lvl is None or lvl >= len(ctx):
                 return [{"fail": None, "cont": []}]
             following, cause = ctx[lvl]
             if cause == v.mid and following is not None:
                 self.taken.add(v.mid)
                 return [{"fail": lvl, "cont": following}]
-            return [{"fail": lvl, "cont": ["?"]}]
+            # not the failure the reference run took: a Catch leads where the definition says, a retry to an attempt nothing is known of
+            return [{"fail": lvl, "cont": static_seq(self.machine, how[1]) if how[0] == "catch" else ["?"]}]
 
         def seq(self, prefix, start, ctx):
             mine = self.threads.get(prefix, [])
@@ -222,7 +250,7 @@ def skeleton(machines, lab):
                     return [item] + self.seq(prefix, start + 1, ctx)
                 if st.get("End") or ty == "Succeed":
                     return [item]
-                return [item, "?"]          # the reference run never got that far
+                return [item] + static_seq(self.machine, st.get("Next"))    # the reference run never got that far
             if self.execution in failed_by.get(v.mid, ()) and ty not in ("Parallel", "Map"):
                 # its own handler ended the execution FAILED (whatever the definition says its Retry / Catch would do)
                 item = ({"T": v.rc} if v.rc else "T") if ty == "Task" and v.mid in reqd else ("W" if ty in ("Task", "Wait") else "S")
@@ -232,7 +260,7 @@ def skeleton(machines, lab):
                 if res.startswith(SYNC_CHILD):
                     kids = [x for x in visits if x.cause == ("tm", v.mid) and x.execution != self.execution and x.name in ("", None)]
                     if not kids:
-                        return [{"child": ["?"], "rc": v.rc}] + ([] if st.get("End") else ["?"])
+                        return [{"child": ["?"], "rc": v.rc}] + ([] if st.get("End") else static_seq(self.machine, st.get("Next")))
                     kid = kids[0]
                     km = machines.get(kid.machine)
                     if km is None:
@@ -244,7 +272,7 @@ def skeleton(machines, lab):
                     item = {"T": v.rc} if v.rc else "T"
                     if v.mid not in reqd:
                         # dropped before its deferred handler ran (its fan-out had failed): what it would have led to is not known
-                        return [item] + ([] if st.get("End") else ["?"])
+                        return [item] + ([] if st.get("End") else static_seq(self.machine, st.get("Next")))
                     error = errs.get(v.mid)
                 else:
                     raise Unsupported("a Task that is neither a function call nor a synchronous child execution")
@@ -280,12 +308,17 @@ def skeleton(machines, lab):
                 before = set(self.taken)
                 for ix in range(width):
                     th = prefix + ((jid, ix),)
-                    branches.append(self.seq(th, 0, inner) if th in self.threads else ["?"])
+                    if th in self.threads:
+                        branches.append(self.seq(th, 0, inner))
+                    else:
+                        # an iteration of a later batch that was never launched: what the iterator's definition says
+                        it = st.get("Iterator") or st.get("ItemProcessor") or {}
+                        branches.append(static_seq(self.machine, it.get("StartAt")) if ty == "Map" else ["?"])
                 handled_here = nxt is not None and nxt.cause is not None and nxt.cause[1] in (self.taken - before)
                 item = {"par": branches, "mc": mc}
                 if handled_here or nxt is None:
-                    # the join of this attempt did not complete in the reference run: what follows it is not known
-                    return [item] + ([] if st.get("End") else ["?"])
+                    # the join of this attempt did not complete in the reference run: what follows it is what the definition says
+                    return [item] + ([] if st.get("End") else static_seq(self.machine, st.get("Next")))
                 return [item] + following
             raise Unsupported("state type %r" % ty)
 
@@ -305,6 +338,7 @@ class Labeller(object):
         self.unknown = []
         self.steps = []        # (kind, message / correlation id, first frame, end frame) of every handler invocation
         self.acked = set()     # message ids of the events acknowledged so far
+        self.ended = {}        # execution -> number of schedule entries when its (first) terminal notification had been published
 
     def _timer_label(self, seq):
         t = [x for x in self.s.wheel.live() if x.seq == seq]
@@ -376,14 +410,34 @@ class Labeller(object):
             self.unknown.append(label[1])
         self.steps.append((label[0], label[1], n0, len(s.broker.log)))
         self.sched.append((label[0], label[1], cut))
+        for fr in new:
+            if fr["op"] == "publish" and fr.get("exchange") == "asl_workflow_engine":
+                d = (body_of(fr) or {}).get("detail") or {}
+                if d.get("status") not in (None, "RUNNING"):
+                    self.ended.setdefault(d.get("executionArn"), len(self.sched))
 
-    def schedule(self):
-        """the schedule in the model's terms (events by publication ordinal); None if something has no counterpart"""
-        if self.unknown:
+    def schedule(self, execution=None):
+        """the schedule in the model's terms (events by publication ordinal); None if something has no counterpart.  The run
+        is given up to its last crash and on to the handler that ended `execution` (after a failure the order in which late
+        replies and back-off timers come decides how it ends), the whole run if it did not end; from there the model runs
+        by itself.  It also ends where, after the last crash, a timer runs that the model does not have (the retention of
+        an orphaned reply running out …)."""
+        last = -1
+        for i, op in enumerate(self.sched):
+            if op[0] == "crash" or op[2] is not None:
+                last = i
+        sched = self.sched
+        if execution is not None and execution in self.ended:
+            sched = sched[:max(last + 1, self.ended[execution])]
+        for i, op in enumerate(sched):
+            if op[0] == "?" and i > last:
+                sched = sched[:i]
+                break
+        if any(op[0] == "?" for op in sched):
             return None
         om = ordinals(self.s.broker.log)
         out = []
-        for kind, ident, cut in self.sched:
+        for kind, ident, cut in sched:
             if kind == "crash":
                 out.append(["crash"])
             elif kind == "tick":
